@@ -478,8 +478,29 @@ int CppCheckExecutor::check_internal(const Settings& settings, Suppressions& sup
     returnValue |= cppcheck.analyseWholeProgram(settings.buildDir, mFiles, mFileSettings, stdLogger.getCtuInfo());
 
     if ((settings.severity.isEnabled(Severity::information) || settings.checkConfiguration) && !supprs.nomsg.getSuppressions().empty()) {
-        const bool err = reportUnmatchedSuppressions(settings, supprs.nomsg, mFiles, mFileSettings, stdLogger);
-        if (err && returnValue == 0)
+        // the exitcode suppressions apply to unmatchedSuppression findings like to any other finding
+        class NofailFilter : public ErrorLogger {
+        public:
+            NofailFilter(ErrorLogger& next, SuppressionList& nofail) : mNext(next), mNofail(nofail) {}
+            void reportOut(const std::string& outmsg, Color c) override {
+                mNext.reportOut(outmsg, c);
+            }
+            void reportErr(const ErrorMessage& msg) override {
+                if (!mNofail.isSuppressed(msg, {}))
+                    fail = true;
+                mNext.reportErr(msg);
+            }
+            void reportMetric(const std::string& metric) override {
+                mNext.reportMetric(metric);
+            }
+            bool fail{};
+        private:
+            ErrorLogger& mNext;
+            SuppressionList& mNofail;
+        };
+        NofailFilter filter(stdLogger, supprs.nofail);
+        reportUnmatchedSuppressions(settings, supprs.nomsg, mFiles, mFileSettings, filter);
+        if (filter.fail && returnValue == 0)
             returnValue = settings.exitCode;
     }
 
